@@ -440,3 +440,8 @@ from sa import exits as _exits  # noqa: E402
 
 RULES.append(Rule("C07.RX", _exits.make_rule("C07", "C07.RX", _exits.SCOPES["C07"]), floor=1,
                   doc="rejection conditions: the anchored functions refuse inputs only under the conditions confirmed on the pinned tree (E16)"))
+
+from sa import exits as _exits_ms  # noqa: E402
+
+RULES.append(Rule("C07.MS", _exits_ms.make_state_rule("C07", "C07.MS", _exits_ms.SCOPES.get("C07", [])), floor=1,
+                  doc="no hidden module-level state on the anchored path: results do not depend on the history of the process (E17)"))
